@@ -85,6 +85,23 @@ pub fn generate(seed: u64, tier: Tier) -> MuxFaultPlan {
         }
         h1_resp.insert(id, resp);
     }
+    // a late sibling (half of the stall plans): opened half a back_timeout after the others, answered by its own backend
+    // connection after three quarters of a back_timeout - so it is waiting for its backend, well inside its own
+    // deadline, at the instant the victim's back_timeout fires. It must get its whole answer.
+    let mut extra = 0u64;
+    if matches!(mcause, MuxCause::StallAt(_)) && rng.below(2) == 0 {
+        let id = nstreams as u64 + 2;
+        let bt = knobs.back_timeout as u64;
+        ops.push(ClientOp::Sleep(bt * SEC / 2));
+        ops.push(ClientOp::Req(H2ReqSpec::get(id, "c0.test", &format!("/r/{id}"))));
+        let len = 1 + rng.below(20_000) as usize;
+        let mut resp = RespSpec::ok(BodySpec::Cl(len));
+        resp.delay_ns = bt * SEC * 3 / 4;
+        h1_resp.insert(id, resp);
+        hint += len + 500;
+        extra = 1;
+    }
+    let _ = extra;
     // a follow-up request once every stream opened so far is over (completed, reset or cancelled): the
     // connection, and the backend connections sozu keeps, must still be usable
     {
